@@ -16,7 +16,8 @@ open Embit Embit.Heap
     Appendix D): the in-place `tweak` variants of the secp256k1 binding (both back ends; the copying variants
     `ec_privkey_add / ec_pubkey_add` exist beside them), sink parameters (a hash object / output pointer that the
     callee exists to write into), and the PSBT scope handed to `sign_input_with_tapkey` / the private `_sign_scope`, which is the
-    receiver's own scope being signed -/
+    receiver's own scope being signed, and the slot-set accumulator of the private `count_slot` helpers (one set per
+    `sign_with` call, created by the caller for exactly this purpose) -/
 def contractMutators : List String := [
   "util.ctypes_secp256k1.ec_privkey_tweak_add",
   "util.ctypes_secp256k1.ec_pubkey_tweak_add",
@@ -29,7 +30,9 @@ def contractMutators : List String := [
   "liquid.transaction.AssetIssuance.hash_to(h)",
   "psbt.PSBT.sign_input_with_tapkey(inp)",
   "psbtview.PSBTView.sign_input_with_tapkey(inp)",
-  "psbtview.PSBTView._sign_scope(inp)"]
+  "psbtview.PSBTView._sign_scope(inp)",
+  "psbt.count_slot(signed)",
+  "psbtview._count_slot(signed)"]
 
 /-- recorded, unrepaired defect (known_findings.json D31): `Descriptor(...)` and `TapTree(...)` assign
     `k.taproot` on the caller's key objects -/
